@@ -37,12 +37,16 @@ CLIENT_BUGS = ["bug_Follow303", "bug_StopAfterFirst", "bug_RelToFirstHost", "bug
 
 
 _seq = [0]
+SHORT = [True]     # default for tlc(short=..): True in the quick tier
 
 
 def tlc(mod, cfg, workers=1, **kw):
     # parallel runs need distinct metadirs (run_tlc names them work_id-pid-milliseconds)
     _seq[0] += 1
     kw.setdefault("work_id", "c07-%d-%s" % (_seq[0], cfg[:-4]))
+    if kw.pop("short", SHORT[0]):
+        # runs of a few seconds: C1-only JIT and two GC threads halve the JVM's start-up CPU (measured 6.4 -> 2.6 s)
+        kw["env"] = dict(kw.get("env") or {}, _JAVA_OPTIONS="-XX:TieredStopAtLevel=1 -XX:ParallelGCThreads=2")
     kw.setdefault("timeout", 1700)
     kw.setdefault("heap", "2g")
     return run_tlc(mod, cfg, D, workers=workers, **kw)
@@ -72,6 +76,7 @@ def run(tier, replay):
     thorough = tier == "thorough"
     T = "thorough" if thorough else "quick"
     work = vlib.workdir("C07")
+    SHORT[0] = not thorough
 
     if replay:
         return replay_case(ctx, hbin, replay)
@@ -88,10 +93,10 @@ def run(tier, replay):
             ("gen:A", lambda: tlc("MC_HttpResp.tla", "Gen_HttpResp_%sA.cfg" % T)),
             ("gen:B", lambda: tlc("MC_HttpResp.tla", "Gen_HttpResp_%sB.cfg" % T)),
             ("gen:C", lambda: tlc("MC_HttpResp.tla", "Gen_HttpResp_%sC.cfg" % T)),
-            ("gen:cookie", lambda: tlc("MC_HttpResp.tla", "Gen_HttpResp_cookie.cfg", heap="1g")),
+            ("gen:cookie", lambda: tlc("MC_HttpResp.tla", "Gen_HttpResp_cookie.cfg", heap="1g", short=True)),
             ("gen:client", lambda: tlc("MC_Client.tla", "Gen_Client_%s.cfg" % T, heap="1g"))]
-    jobs += [("sens:resp:" + n, (lambda n=n: tlc("MC_HttpResp.tla", "MC_HttpResp_%s.cfg" % n, 1, heap="1g"))) for n, _ in rb]
-    jobs += [("sens:client:" + n, (lambda n=n: tlc("MC_Client.tla", "MC_Client_%s.cfg" % n, 1, heap="1g"))) for n in cb]
+    jobs += [("sens:resp:" + n, (lambda n=n: tlc("MC_HttpResp.tla", "MC_HttpResp_%s.cfg" % n, 1, heap="1g", short=True))) for n, _ in rb]
+    jobs += [("sens:client:" + n, (lambda n=n: tlc("MC_Client.tla", "MC_Client_%s.cfg" % n, 1, heap="1g", short=True))) for n in cb]
     res = par(jobs, 6 if thorough else 8)
     mc = {k[3:]: v for k, v in res.items() if k.startswith("mc:")}
     gen = {k[4:]: v for k, v in res.items() if k.startswith("gen:")}
@@ -195,7 +200,7 @@ def run(tier, replay):
     recs[victim]["got"]["body"][1] = "0" * 16
     trs = os.path.join(work, "random-selftest-%d.ndjson" % os.getpid())
     vlib.write_lines(trs, recs)
-    jobs.append(("resp-selftest", lambda: tlc("Trace_HttpResp.tla", "Trace_HttpResp.cfg", env={"TRACE": trs}, deque=True, heap="1g")))
+    jobs.append(("resp-selftest", lambda: tlc("Trace_HttpResp.tla", "Trace_HttpResp.cfg", env={"TRACE": trs}, deque=True, heap="1g", short=True)))
     ctr = os.path.join(work, "client-%d.ndjson" % os.getpid())
     nruns = 1500 if thorough else 250
     if client_ok:
